@@ -130,6 +130,7 @@ def rule_never_early(chk, prefix="C09"):
         sl = guard_slice(f, cfg, cn)
         for e_, lab_, t_ in list(sl):
             sl += helper_slice(f, e_)
+        sl = [(X.for_matching(f, e), lab, t) if lab != "helper" and not lab.startswith("assign") else (e, lab, t) for e, lab, t in sl]
         texts = [(unparse(e), lab) for e, lab, t in sl]
         alltxt = " ## ".join(t for t, _ in texts)
         problems = []
@@ -176,6 +177,42 @@ def rule_never_early(chk, prefix="C09"):
                         chk.req(prev_ok, "%s.never-early" % prefix, "Task._insert_action:child-loop-covers-all", chk.where(f, n.lineno),
                                 good="the loop stops early only after finding an incomplete child",
                                 fail="the child-completeness loop can stop before looking at every child")
+
+
+def rule_state_is_order_free(chk, prefix="C09"):
+    """Parser state may depend on the SET of messages added, not on the order: a field of Task / Parser that the add path
+    overwrites with a value taken from the message being added (without merging it with the value already there) holds
+    whatever arrived last."""
+    ctx = chk.ctx
+    known_paths = {"_nodes", "_completed", "_tasks"}
+    n = 0
+    for q in ("Task.add", "Task._insert_action", "Task._ensure_node_parents", "Parser.add"):
+        g = ctx.func("parse", q)
+        for x in iter_own_nodes(g.node):
+            if not (isinstance(x, ast.Call) and isinstance(x.func, ast.Attribute)):
+                continue
+            if x.func.attr == "set":
+                fields = [(k.arg, k.value) for k in x.keywords if k.arg is not None]
+                if len(x.args) == 2 and isinstance(x.args[0], ast.Constant) and isinstance(x.args[0].value, str):
+                    fields.append((x.args[0].value, x.args[1]))
+                recv = x.func.value
+                rt = ctx.cg.typer.type_of(g, recv)
+                if not fields or not any(getattr(t, "name", None) in ("Task", "Parser") for t in rt):
+                    continue
+                for fname, v in fields:
+                    n += 1
+                    merges = any(isinstance(y, ast.Attribute) and y.attr == fname for y in ast.walk(v))
+                    if merges:
+                        raise AnalysisError("%s: field %s is updated by `%s` (a merge with its previous value; order-independence of that merge is not modelled)" % (q, fname, unparse(x)[:60]))
+                    chk.bad("%s.order" % prefix, "%s:state-independent-of-arrival-order(%s)" % (q, fname), chk.where(g, x.lineno),
+                            "`%s` overwrites %s with a value taken from the message being added: the field holds whatever arrived LAST, so the same messages added in a different order give "
+                            "objects that differ (and compare unequal)" % (unparse(x)[:70], fname))
+            elif x.func.attr == "transform" and x.args and isinstance(x.args[0], ast.List) and x.args[0].elts:
+                n += 1
+                first = x.args[0].elts[0]
+                if not (isinstance(first, ast.Constant) and first.value in known_paths):
+                    raise AnalysisError("%s: transform of %s is not one of the state paths the rules know" % (q, unparse(first)[:30]))
+    chk.ok("%s.order" % prefix, "parser-state-updates-examined", "eliot/parse.py", "%d state updates on the add path: only the node map, the completed set and the task map are written" % n, sites=max(n, 1))
 
 
 def rule_upward(chk):
@@ -661,5 +698,6 @@ def run(chk):
     rule_once(chk)
     rule_tail(chk)
     rule_add_dispatch(chk)
+    rule_state_is_order_free(chk)
     from . import c02
     c02.rule_exit_order(chk)  # generation side: nothing may be logged under an action after its end message, or the parser rejects the stream
